@@ -33,6 +33,7 @@ type BatchResult struct {
 	Found    []Found          `json:"found"`
 	SimCount map[string]int64 `json:"sim_counters"`
 	SitesHit int              `json:"sites_hit"`
+	HitSites []string         `json:"hit_sites"`
 	Sites    int              `json:"sites_total"`
 	WallS    float64          `json:"wall_s"`
 	Race     bool             `json:"race_build"`
@@ -79,6 +80,7 @@ func main() {
 		return
 	}
 	warmup()
+	simrt.ResetSiteHits()
 
 	if *replay != "" {
 		os.Exit(doReplay(*replay))
@@ -161,6 +163,7 @@ func main() {
 		}
 	}
 	res.SitesHit, res.Sites = simrt.ReadSiteHits()
+	res.HitSites = simrt.HitSites()
 	res.WallS = time.Since(start).Seconds()
 	if *selftest != "" {
 		f, _ := os.Create(*selftest)
